@@ -259,6 +259,31 @@ func propInvalidator(c *Case) {
 				haveLast, last = true, at
 			}
 		}
+
+		// de-registration: with no callbacks left every call reports ErrNothingToInvalidate, also right
+		// after an accepted run (nothing is rejected as "already invalidated" when there is nothing to run)
+		if c.Bool("deregister-all") {
+			c.Class("callbacks-deregistered")
+
+			if c.Bool("empty-not-nil") {
+				inv.Callbacks = inv.Callbacks[:0]
+			} else {
+				inv.Callbacks = nil
+			}
+
+			before := len(events)
+
+			for _, wait := range []time.Duration{0, time.Nanosecond, eff + 1} {
+				if wait > 0 {
+					time.Sleep(wait)
+				}
+
+				err := inv.Invalidate(context.Background())
+				c.Assert(errors.Is(err, cache.ErrNothingToInvalidate), "nothing-to-invalidate", "all callbacks de-registered, Invalidate %v after the last accepted run returned %v, want ErrNothingToInvalidate", time.Duration(time.Now().UnixNano()-last), err)
+			}
+
+			c.Assert(len(events) == before, "callbacks-ran", "callbacks ran after de-registration")
+		}
 	})
 }
 
